@@ -31,6 +31,7 @@ const std::uint32_t kTimes[] = {0, 40, 150, 600, 2500, 12000};
 const std::uint32_t kDeadlines[] = {0, 100, 500, 3000, 50000};
 
 struct Waiter {
+  int round = 0;  // 0: first use of the object, 1: after Reset
   int form = 0;
   std::uint32_t start_at = 0;
   std::uint32_t timeout = 0;
@@ -44,6 +45,7 @@ struct Waiter {
 };
 
 struct Member {      // a fiber holding part of the count
+  int round = 0;
   std::uint32_t done_at = 0;
   std::uint32_t extra = 0;     // nested Add(extra) ... Done(extra) while holding its own share
   std::uint32_t share = 1;
@@ -104,15 +106,46 @@ class Case final : public sim::CaseBase {
         futs.push_back(f);
       }
       iterator_insert = g.Flip();
+      explicit_add = g.Draw(3) == 2;  // Add(n) by hand, then Consume<false>/Attach<false>
     }
-    owner_done_at = kTimes[g.Draw(6)];
+    owner_done_at[0] = kTimes[g.Draw(6)];
+    // second use of the same object: once everything of the first use has returned, Reset (documented as "the same as *this = {}",
+    // not thread-safe, so called at a quiescent point) and a second, smaller round of members and waiters
+    second_round = g.Draw(3) == 2;
+    if (second_round) {
+      const int nw2 = 1 + static_cast<int>(g.Draw(3));
+      for (int i = 0; i < nw2; ++i) {
+        Waiter w;
+        w.round = 1;
+        w.form = static_cast<int>(g.Draw(bare_event ? kWFormCount : kWFormCount - 1));
+        w.start_at = kTimes[g.Draw(6)];
+        w.timeout = kDeadlines[g.Draw(5)];
+        waiters.push_back(w);
+      }
+      if (!bare_event) {
+        const int nm2 = static_cast<int>(g.Draw(3));
+        for (int i = 0; i < nm2; ++i) {
+          Member m;
+          m.round = 1;
+          m.done_at = kTimes[g.Draw(6)];
+          m.extra = g.Draw(3);
+          m.share = 1 + g.Draw(2);
+          members.push_back(m);
+        }
+        reset_with_count = g.Flip();
+      }
+      owner_done_at[1] = kTimes[g.Draw(6)];
+    }
   }
 
   void Describe(sim::Json& j) const final {
-    j.KV("object", bare_event ? "OneShotEvent" : "WaitGroup").KV("pool_workers", pool_workers).KV("owner_releases_at_ns", owner_done_at);
+    j.KV("object", bare_event ? "OneShotEvent" : "WaitGroup").KV("pool_workers", pool_workers).KV("owner_releases_at_ns", owner_done_at[0]);
+    if (second_round) {
+      j.KV("second_round_after", bare_event ? "event.Reset()" : reset_with_count ? "group.Reset(1)" : "group.Reset(); group.Add(1)").KV("owner_releases_second_round_at_ns", owner_done_at[1]);
+    }
     j.Key("waiters").Arr();
     for (auto& w : waiters) {
-      j.Obj().KV("form", kWNames[w.form]).KV("starts_at_ns", w.start_at);
+      j.Obj().KV("round", w.round).KV("form", kWNames[w.form]).KV("starts_at_ns", w.start_at);
       if (w.form == kWaitFor || w.form == kWaitUntil) {
         j.KV("timeout_ns", w.timeout);
       }
@@ -121,7 +154,7 @@ class Case final : public sim::CaseBase {
     j.EndArr();
     j.Key("members").Arr();
     for (auto& m : members) {
-      j.Obj().KV("share", m.share).KV("done_at_ns", m.done_at).KV("nested_add", m.extra).End();
+      j.Obj().KV("round", m.round).KV("share", m.share).KV("done_at_ns", m.done_at).KV("nested_add", m.extra).End();
     }
     j.EndArr();
     j.Key("futures").Arr();
@@ -131,7 +164,7 @@ class Case final : public sim::CaseBase {
     }
     j.EndArr();
     if (!futs.empty()) {
-      j.KV("inserted_by", iterator_insert ? "iterator range" : "one call per future");
+      j.KV("inserted_by", iterator_insert ? "iterator range" : "one call per future").KV("add", explicit_add ? "Add(n) by hand + Consume<false>/Attach<false>" : "implicit");
     }
   }
 
@@ -143,6 +176,9 @@ class Case final : public sim::CaseBase {
     auto& wt = waiters[static_cast<std::size_t>(w)];
     ++wt.releases;
     for (auto& m : members) {
+      if (m.round > wt.round) {
+        continue;
+      }
       sim::RaceRead(&m.cell, sizeof m.cell);
       if (m.cell != 1) {
         sim::Fail("STALE_PAYLOAD", "a released waiter does not see what a member wrote before its Done");
@@ -264,7 +300,13 @@ class Case final : public sim::CaseBase {
               consume_range.push_back(std::move(owned[i]));
             }
           }
-          group.Consume(consume_range.begin(), consume_range.end());  // possibly an empty range
+          if (explicit_add) {
+            SIM_PROBE("explicit_add_then_insert_without_add");
+            group.Add(consume_range.size());
+            group.Consume<false>(consume_range.begin(), consume_range.end());
+          } else {
+            group.Consume(consume_range.begin(), consume_range.end());  // possibly an empty range
+          }
           // Attach takes a range of futures too: build a contiguous range of the attached ones and move them back
           std::vector<yaclib::Future<T, E>> attach_range;
           for (std::size_t i = 0; i < nf; ++i) {
@@ -274,14 +316,27 @@ class Case final : public sim::CaseBase {
             }
           }
           {
-            group.Attach(attach_range.begin(), attach_range.size());  // possibly an empty range
+            if (explicit_add) {
+              group.Add(attach_range.size());
+              group.Attach<false>(attach_range.begin(), attach_range.size());
+            } else {
+              group.Attach(attach_range.begin(), attach_range.size());  // possibly an empty range
+            }
             for (std::size_t k = 0; k < attach_idx.size(); ++k) {
               owned[attach_idx[k]] = std::move(attach_range[k]);
             }
           }
         } else {
           for (std::size_t i = 0; i < nf; ++i) {
-            if (futs[i].consume) {
+            if (explicit_add) {
+              SIM_PROBE("explicit_add_then_insert_without_add");
+              group.Add(1);
+              if (futs[i].consume) {
+                group.Consume<false>(std::move(owned[i]));
+              } else {
+                group.Attach<false>(owned[i]);
+              }
+            } else if (futs[i].consume) {
               group.Consume(std::move(owned[i]));
             } else {
               group.Attach(owned[i]);
@@ -289,7 +344,9 @@ class Case final : public sim::CaseBase {
           }
         }
         for (auto& m : members) {
-          group.Add(m.share);
+          if (m.round == 0) {
+            group.Add(m.share);
+          }
         }
       }
     }
@@ -302,67 +359,96 @@ class Case final : public sim::CaseBase {
         CompleteFuture(i, promises);
       });
     }
-    for (std::size_t i = 0; i < members.size(); ++i) {
-      ts.emplace_back([this, i, &group] {
-        auto& m = members[i];
-        sim::SleepNs(m.done_at);
-        if (m.extra != 0) {
-          group.Add(m.extra);  // legal: this fiber still holds its own share
-          sim::Yield();
-          RecordDone(m.done_invokes);
-          group.Done(m.extra);
-        }
-        sim::RaceWrite(&m.cell, sizeof m.cell);
-        m.cell = 1;
-        RecordDone(m.done_invokes);
-        group.Done(m.share);
-      });
-    }
     std::vector<yaclib::Future<>> coros(waiters.size());
-    for (std::size_t w = 0; w < waiters.size(); ++w) {
-      auto& wt = waiters[w];
-      if (wt.form == kCoAwait || wt.form == kAwaitSticky || wt.form == kAwaitOn) {
-        ts.emplace_back([this, w, &coros, &px] {
-          sim::SleepNs(waiters[w].start_at);
-          coros[w] = CoWaiter(this, static_cast<int>(w), &px[0], &px[1]);
-        });
-      } else if (wt.form == kTryAddJob) {
-        ts.emplace_back([this, w, &wjobs, &event] {
-          auto& x = waiters[w];
-          sim::SleepNs(x.start_at);
-          wjobs[w].c = this;
-          wjobs[w].w = static_cast<int>(w);
-          x.invoke = sim::Seq();
-          if (!event.TryAdd(wjobs[w])) {
-            x.try_add_refused = true;
-            x.returned = true;
-            x.released = sim::Seq();
+    auto run_round = [&](int cur) {
+      for (std::size_t i = 0; i < members.size(); ++i) {
+        if (members[i].round != cur) {
+          continue;
+        }
+        ts.emplace_back([this, i, &group] {
+          auto& m = members[i];
+          sim::SleepNs(m.done_at);
+          if (m.extra != 0) {
+            group.Add(m.extra);  // legal: this fiber still holds its own share
+            sim::Yield();
+            RecordDone(m.done_invokes);
+            group.Done(m.extra);
           }
-        });
-      } else {
-        ts.emplace_back([this, w] {
-          BlockingWaiter(static_cast<int>(w));
+          sim::RaceWrite(&m.cell, sizeof m.cell);
+          m.cell = 1;
+          RecordDone(m.done_invokes);
+          group.Done(m.share);
         });
       }
-    }
-    // the owner releases its unit / sets the event
-    sim::SleepNs(owner_done_at);
-    RecordDone(owner_done);
-    if (bare_event) {
-      event.Set();
-    } else {
-      group.Done(1);
-    }
-    for (auto& t : ts) {
-      t.join();
-    }
-    for (auto& f : coros) {
-      if (f.Valid()) {
-        auto r = std::move(f).Get();
-        if (!r) {
-          sim::Fail("COROUTINE_FAILED", "a waiting coroutine did not finish with a value");
+      for (std::size_t w = 0; w < waiters.size(); ++w) {
+        auto& wt = waiters[w];
+        if (wt.round != cur) {
+          continue;
+        }
+        if (wt.form == kCoAwait || wt.form == kAwaitSticky || wt.form == kAwaitOn) {
+          ts.emplace_back([this, w, &coros, &px] {
+            sim::SleepNs(waiters[w].start_at);
+            coros[w] = CoWaiter(this, static_cast<int>(w), &px[0], &px[1]);
+          });
+        } else if (wt.form == kTryAddJob) {
+          ts.emplace_back([this, w, &wjobs, &event] {
+            auto& x = waiters[w];
+            sim::SleepNs(x.start_at);
+            wjobs[w].c = this;
+            wjobs[w].w = static_cast<int>(w);
+            x.invoke = sim::Seq();
+            if (!event.TryAdd(wjobs[w])) {
+              x.try_add_refused = true;
+              x.returned = true;
+              x.released = sim::Seq();
+            }
+          });
+        } else {
+          ts.emplace_back([this, w] {
+            BlockingWaiter(static_cast<int>(w));
+          });
         }
       }
+      // the owner releases its unit / sets the event
+      sim::SleepNs(owner_done_at[cur]);
+      RecordDone(owner_done[cur]);
+      if (bare_event) {
+        event.Set();
+      } else {
+        group.Done(1);
+      }
+      for (auto& t : ts) {
+        t.join();
+      }
+      ts.clear();
+      for (auto& f : coros) {
+        if (f.Valid()) {
+          auto r = std::move(f).Get();
+          f = {};
+          if (!r) {
+            sim::Fail("COROUTINE_FAILED", "a waiting coroutine did not finish with a value");
+          }
+        }
+      }
+    };
+    run_round(0);
+    if (second_round) {
+      SIM_PROBE("second_round_after_reset");
+      sim::SleepNs(20'000'000);
+      if (bare_event) {
+        event.Reset();
+      } else if (reset_with_count) {
+        group.Reset(1);
+      } else {
+        group.Reset();
+        group.Add(1);
+      }
+      for (auto& m : members) {
+        if (m.round == 1) {
+          group.Add(m.share);
+        }
+      }
+      run_round(1);
     }
     sim::SleepNs(20'000'000);
     // attached futures: still the owner's, ready, with their result, consumable
@@ -399,21 +485,24 @@ class Case final : public sim::CaseBase {
       return;
     }
     // every event that must precede zero
-    std::uint64_t last_needed = 0;
-    for (auto v : owner_done) {
-      last_needed = std::max(last_needed, v);
+    std::uint64_t needed[2] = {0, 0};
+    for (int r = 0; r < 2; ++r) {
+      for (auto v : owner_done[r]) {
+        needed[r] = std::max(needed[r], v);
+      }
     }
     for (auto& m : members) {
       for (auto v : m.done_invokes) {
-        last_needed = std::max(last_needed, v);
+        needed[m.round] = std::max(needed[m.round], v);
       }
     }
     for (auto& f : futs) {
       SIM_CHECK(f.set_invoke != 0, "HARNESS", "a future was never completed");
-      last_needed = std::max(last_needed, f.set_invoke);
+      needed[0] = std::max(needed[0], f.set_invoke);
     }
     for (std::size_t i = 0; i < waiters.size(); ++i) {
       const auto& w = waiters[i];
+      const std::uint64_t last_needed = needed[w.round];
       char name[64];
       std::snprintf(name, sizeof name, "cell_%s_%s", bare_event ? "event" : "group", kWNames[w.form]);
       sim::CountDyn(name);
@@ -458,11 +547,12 @@ class Case final : public sim::CaseBase {
   }
 
   bool bare_event = false, iterator_insert = false;
-  std::uint32_t pool_workers = 1, owner_done_at = 0;
+  bool second_round = false, reset_with_count = false, explicit_add = false;
+  std::uint32_t pool_workers = 1, owner_done_at[2] = {0, 0};
   std::vector<Waiter> waiters;
   std::vector<Member> members;
   std::vector<Fut> futs;
-  std::vector<std::uint64_t> owner_done;
+  std::vector<std::uint64_t> owner_done[2];
 };
 
 void WJob::Call() noexcept {
